@@ -216,6 +216,22 @@ Section InvS.
     - intros Hg. destruct (Hng Hg) as (E1 & E2 & E3 & E4 & E5). rewrite E3, E4. repeat split; assumption.
   Qed.
 
+  Lemma rotation_exact_eq st : MemInv (mm st) -> offset (mm st) + week_len <= 2^32 - 8192 ->
+    exists s, rotate sign stats_sb st =
+      ({| mm := {| equipment := equipment (mm st); index := index (mm st); bans := bans (mm st);
+                   reports := map (fun p => (fst p, shift_window (snd p))) (reports (mm st));
+                   impact := map (fun p => (fst p, shift_window (snd p))) (impact (mm st));
+                   offset := offset (mm st) + week_len; history := history (mm st) ++ [s];
+                   gca := gca (mm st); gca_avail := gca_avail (mm st); tempkey := tempkey (mm st);
+                   skeys := skeys (mm st) |};
+          dd := disk_append_stats (dd st) s |}, Quiet).
+  Proof.
+    intros I Hb. destruct (build_stats_at_offset (mm st) I) as (s & E & Ts).
+    exists s. unfold rotate. rewrite E.
+    rewrite (u32_id (offset (mm st) + week_len)) by (pose proof (i_off_lo _ I); unfold is_u32, week_len in *; lia).
+    reflexivity.
+  Qed.
+
   Lemma rotate_tick_inv st now :
     MemInv (mm st) -> clock_ok now ->
     MemInv (mm (fst (rotate_tick sign stats_sb st now))) /\ snd (rotate_tick sign stats_sb st now) = Quiet.
